@@ -1002,3 +1002,89 @@ RS.rules.append(Rule('C11.R10b', 'K-GUARD+K-SIBLING', 'subshell entry: a signal 
 
 # --- explanation addendum (generated catalogue in DESIGN.md reads RS.explanation)
 RS.explanation += ' Added later: every batch of caught signals taken from the system reaches the collection that is drained into the trap set (R6 batch clause).'
+
+
+# ----------------------------------------------------------------- R11
+TRAPSET = 'yash_env::trap::TrapSet'
+TS_ENTER = TRAPSET + '::enter_subshell'
+GS_ENTER = GRAND + '::enter_subshell'
+PLAIN_TABLE_ITER = re.compile(r'^<alloc::collections::btree::map::(IterMut|ValuesMut|Iter|Values)<')
+
+
+def _passes_record_on(F, callee):
+    """A private helper of the trap module that hands the record it is given to GrandState::enter_subshell on every path
+    (extracting the loop body into `async fn enter_one(state, ..)` is a behaviour-preserving refactoring)."""
+    if not callee or not callee.startswith('yash_env::trap::') or callee == GS_ENTER or (F.fns.get(callee) or {}).get('vis') == 'pub':
+        return False
+    try:
+        hb = F.main_body(callee)
+    except Exception:
+        return False
+    hdu = Q.DefUse(hb)
+    done = set()
+    for b, t in Q.find_calls(hb, [GS_ENTER]):
+        d = await_done(F, hb, hdu, t)
+        if d is not None:
+            done.add(d)
+    return bool(done) and Q.must_pass(hb, [0], done) is None
+
+
+@RS.rule('C11.R11', 'K-PASS', 'subshell entry: every record of the trap table is handed to GrandState::enter_subshell (awaited) - no test in '
+         'TrapSet::enter_subshell can skip an existing entry; which signals change is decided per record by GrandState (C11.R10)')
+def r11(cx):
+    F = cx.F
+    body = F.main_body(TS_ENTER)
+    cx.fn(body.fn)
+    du = Q.DefUse(body)
+    # iterators derived from self.traps
+    seeds = set()
+    for b, j, s in body.stmts():
+        if s['k'] == 'assign' and Q.is_plain(s['lhs']) and any(Q._projects_field(pl, TRAPSET, 'traps') for pl in Q.rvalue_places(s['rv'])):
+            seeds.add(s['lhs']['l'])
+    for b, t in body.calls():
+        if any(Q.operand_place(a) is not None and Q._projects_field(Q.operand_place(a), TRAPSET, 'traps') for a in t['a']):
+            seeds.add(t['dest']['l'])
+    cx.require(seeds, 'TrapSet::enter_subshell does not read TrapSet::traps')
+    table = Q.forward_taint(body, seeds)
+    heads = [(b, t) for b, t in Q.find_calls(body, NEXT) if t['a'] and Q.operand_local(t['a'][0]) in table]
+    cx.require(heads, 'TrapSet::enter_subshell: no loop over the trap table (Iterator::next on an iterator of TrapSet::traps) found')
+    for hb, ht in heads:
+        names = Q.callee_names(ht)
+        cx.require(any(PLAIN_TABLE_ITER.match(n) for n in names), 'TrapSet::enter_subshell iterates over the trap table through %s, not a plain '
+                   'BTreeMap iterator: an adaptor could drop entries before the loop body, the rule cannot follow it' % sorted(names))
+        ec = Q.edge_condition(F, body, du, ht['to']) if ht.get('to') is not None else None
+        cx.require(ec is not None and ec[0]['k'] == 'discr', 'the result of Iterator::next over the trap table is not matched right after the call')
+        starts = [tgt for tgt, labs in ec[1].items() if ('variant', 'Some') in labs]
+        cx.require(starts, 'no Some edge after Iterator::next over the trap table')
+        entry = Q.forward_taint(body, {ht['dest']['l']})
+        through, shown = set(), []
+        for b, t in body.calls():
+            callee = t['f'].get('def') or ''
+            direct = Q.callee_is(t, [GS_ENTER])
+            if not direct and not _passes_record_on(F, callee):
+                continue
+            # the record handled is the one the iterator yielded (enter_subshell on some other record does not count)
+            if not (Q.operand_local(t['a'][0]) in entry if direct else any(Q.operand_local(a) in entry for a in t['a'])):
+                continue
+            d = await_done(F, body, du, t)
+            shown.append(body.loc(t))
+            if d is None:
+                cx.violation(TS_ENTER, 'entry-not-awaited', 'the future returned by GrandState::enter_subshell for a trap table entry is not awaited: '
+                             'the record and the disposition of that signal are not changed for the subshell', loc=body.loc(t))
+                d = b
+            through.add(d)
+        cx.site('%s: loop over the trap table at %s; each entry handed to GrandState::enter_subshell at %s' % (body.fn, body.loc(ht), shown))
+        if not through:
+            cx.violation(TS_ENTER, 'entries-not-reset', 'the entries of the trap table are not passed to GrandState::enter_subshell on subshell entry: '
+                         'command traps of the parent stay armed in the subshell', loc=body.loc(ht))
+            continue
+        p = Q.must_pass(body, starts, through, goal_blocks=set(body.return_blocks()) | {hb})
+        if p is not None:
+            cx.violation(TS_ENTER, 'entry-skipped', 'an existing entry of the trap table can be skipped on subshell entry without reaching '
+                         'GrandState::enter_subshell: its command trap / internal disposition is not reset and - since the code after the loop only '
+                         'handles signals WITHOUT an entry - SIGINT/SIGQUIT with an entry (after `trap - INT` or `trap -p`) keep the default action in '
+                         'an asynchronous subshell instead of being ignored', loc=body.loc(body.term(p[-2] if len(p) > 1 else p[0])),
+                         path=Q.render_path(body, p))
+
+
+RS.explanation += ' On subshell entry every record of the trap table reaches GrandState::enter_subshell, no test in TrapSet::enter_subshell skips one (R11).'
